@@ -125,7 +125,42 @@ def decoders : List (String × Dec) := [
 
 def lookupDec (name : String) : Option Dec := (decoders.find? (·.1 == name)).map (·.2)
 
+def isOkJ (j : Json) : Bool :=
+  match j.getObjVal? "ok" with
+  | .ok _ => true
+  | .error _ => false
+
+/-- exhaustive sweep: every input `head ‖ x ‖ tail` with `x` ranging over all `256^n` strings of
+    length `n` (in numerical order); the accept/reject pattern as run lengths, starting with a
+    (possibly empty) run of rejections -/
+def sweep (d : Dec) (j : Json) (head tail : Bytes) (n : Nat) : R Json := do
+  let mut runs : Array Nat := #[]
+  let mut cur := false
+  let mut len := 0
+  let mut acc := 0
+  for i in [0:256 ^ n] do
+    let r ← d j (head ++ beBytes n i ++ tail)
+    let ok := isOkJ r
+    if ok then acc := acc + 1
+    if ok == cur then
+      len := len + 1
+    else
+      runs := runs.push len
+      cur := ok
+      len := 1
+  runs := runs.push len
+  pure (obj [("ok", obj [("accepted", jn acc), ("accept_rle", jarr (runs.toList.map jn))])])
+
 def ops : List (String × Handler) := [
+  ("c10_sweep", fun j => do
+      let name ← getStr j "decoder"
+      let head ← getHex j "head"
+      let tail ← getHex j "tail"
+      let n ← getNat j "sweep_len"
+      if n > 3 then .error "c10_sweep: sweep_len ≤ 3" else
+      match lookupDec name with
+      | some d => sweep d j head tail n
+      | none => .error s!"c10_sweep: unknown decoder {name}"),
   ("c10_decode", fun j => do
       let name ← getStr j "decoder"
       let raw ← getHex j "raw"
